@@ -537,6 +537,13 @@ static inline struct ubuf *ubuf_block_splice(struct ubuf *ubuf, int offset,
                                              int size)
 {
     struct ubuf *new_ubuf;
+    if (likely(ubuf->mgr->signature == UBUF_ALLOC_BLOCK) && size != -1) {
+        struct ubuf_block *block = ubuf_block_from_ubuf(ubuf);
+        int start = offset < 0 ? offset + (int)block->total_size : offset;
+        if (unlikely(start < 0 || size < 0 ||
+                     (size_t)start + size > block->total_size))
+            return NULL;
+    }
     if (unlikely(ubuf->mgr->signature != UBUF_ALLOC_BLOCK ||
                  (ubuf = ubuf_block_get(ubuf, &offset, &size)) == NULL ||
                  !ubase_check(ubuf_control(ubuf, UBUF_SPLICE_BLOCK,
